@@ -166,6 +166,7 @@ def generate(module, cfg, *, env=None, timeout=900, tag="gen", heap="4g", simula
 
 
 _RE_ACCEPT = re.compile(r'<<"ACCEPT", (\d+)>>')
+_RE_DRIFT = re.compile(r'<<"DRIFT", (\d+)>>')
 _RE_AT = re.compile(r'<<"AT", (\d+), (\d+), "([^"]*)">>')
 
 
@@ -197,6 +198,7 @@ def validate_traces(module, cfg, traces: list, *, shards=8, env=None, timeout=90
     with ThreadPoolExecutor(max_workers=shards) as ex:
         results = list(ex.map(one, range(shards)))
     accepted = set()
+    drift = set()
     progress = {}
     states = distinct = 0
     for si, r in enumerate(results):
@@ -206,10 +208,12 @@ def validate_traces(module, cfg, traces: list, *, shards=8, env=None, timeout=90
         distinct += r["distinct"]
         for m in _RE_ACCEPT.finditer(r["out"]):
             accepted.add(parts[si][int(m.group(1)) - 1])
+        for m in _RE_DRIFT.finditer(r["out"]):
+            drift.add(parts[si][int(m.group(1)) - 1])
         for m in _RE_AT.finditer(r["out"]):
             gi = parts[si][int(m.group(1)) - 1]
             l = int(m.group(2))
             if gi not in progress or progress[gi][0] < l:
                 progress[gi] = (l, m.group(3))
     shutil.rmtree(d, ignore_errors=True)
-    return accepted, {"states": states, "distinct": distinct, "wall": time.time() - t0, "progress": progress}
+    return accepted, {"states": states, "distinct": distinct, "wall": time.time() - t0, "progress": progress, "drift": sorted(drift)}
